@@ -88,6 +88,14 @@ func TestVX_C03daemon(t *testing.T) {
 		vxJob{Fans: []vxJobFan{{ID: "fanA", Kind: "hwmon", OrigMode: 2, OrigPwm: 60, Stored: true}, {ID: "fanB", Kind: "file", OrigMode: -1, OrigPwm: 127, Stored: true}}, Sensor: "hwmon", Curve: "linear", OpChoices: false, Cycles: 3},
 		vxJob{Fans: []vxJobFan{{ID: "fanA", Kind: "hwmon", OrigMode: 2, OrigPwm: 60, Stored: true}, {ID: "fanB", Kind: "hwmon", OrigMode: 0, OrigPwm: 200, Stored: true}}, Sensor: "file", Curve: "func-linear", OpChoices: false, Cycles: 3},
 	)
+	// signals while a fan is still being analysed (PWM sweep at ~2.4..3.7 s, RPM-curve measurement for minutes afterwards),
+	// alone and next to a fan that is already regulating
+	initInstants := []int{1000, 2500, 3000, 3650, 4200, 15000, 60000, 300000, 520000}
+	jobs = append(jobs,
+		vxJob{Fans: []vxJobFan{{ID: "fanA", Kind: "hwmon", OrigMode: 2, OrigPwm: 60, Stored: false}}, Sensor: "file", Curve: "linear", OpChoices: false, InstantsMs: initInstants, FinalAtMs: 540000},
+		vxJob{Fans: []vxJobFan{{ID: "fanA", Kind: "hwmon", OrigMode: 0, OrigPwm: 200, Stored: false}, {ID: "fanB", Kind: "file", OrigMode: -1, OrigPwm: 127, Stored: true}}, Sensor: "hwmon", Curve: "linear", OpChoices: false, InstantsMs: initInstants, FinalAtMs: 540000},
+		vxJob{Fans: []vxJobFan{{ID: "fanA", Kind: "file", OrigMode: -1, OrigPwm: 90, Stored: false}}, Sensor: "file", Curve: "pid", OpChoices: false, InstantsMs: []int{1000, 2500, 3000, 3650, 4200, 5000}, FinalAtMs: 8000},
+	)
 	bound := 2
 	if mc.Thorough() {
 		bound = 3
